@@ -14,6 +14,11 @@ Tie, three layers, all on the real classes of `ctx.repo`:
     order, leader moves, retriable fetch errors, dropped connections; getone / getmany / seek /
     pause / resume from several tasks); the probe of cons_common records per partition every
     internal event with a snapshot of the real state; the Lean acceptor replays the model on it.
+    Before the random traces a deterministic family of exact ties runs (cons_sim.c03tie_plans): two
+    brokers, jitter 0, the application blocked in `getone()`, a record appended to one partition at
+    the very instant (and ±1 tick / ±1–2 ms) at which the other broker's long-poll expires, or
+    together with a leader move that makes the other broker answer NOT_LEADER — both fetch answers
+    reach the consumer in the same loop iteration; the blocked call must return within 5 virtual s.
 Search: the property itself (`c03 holds`: Lean `holdsC03`) is evaluated on what the application
 saw against the ground-truth log, for every trace.
 """
@@ -453,7 +458,9 @@ def run(ctx):
         "unpack: random cut of a generated log (≤12 batches × ≤6 records, 8 format families, gaps / empty / control "
         "batches) and a fetch offset before / at / inside the first batch; non-trivial = ≥2 batches or offset inside "
         "the first batch.  fst: scripts of 4..60 operations over 1..3 partitions on the real Fetcher, Fetch v0..v11 "
-        "responses; non-trivial = ≥2 records handed out.  acc: simulator traces, non-trivial = ≥5 records "
+        "responses; non-trivial = ≥2 records handed out.  acc: exact-tie schedules (co-arriving fetch answers of two "
+        "brokers while getone() is blocked) then random simulator traces (40 % with appends landing on another broker's "
+        "long-poll deadline), non-trivial = ≥5 records "
         "delivered and ≥1 seek or pause.  distinct by canonical input text")
     if not mism and proved and ok_sim:
         return
